@@ -117,6 +117,17 @@ func checkC18(r *run, c *TimeCase) (CaseInfo, error) {
 			return ci, failf("capture clock offset %d ns of an extension reads as %v after a by-value copy of it decoded other bytes", c.O, d3)
 		}
 	}
+	{
+		// the offset the constructor allocated is the caller's: after writing through it, a new extension built for
+		// the same offset is still right (a shared zero value would not be)
+		*eo.EstimatedCaptureClockOffset += 5 << 32
+		fresh := rtp.NewAbsCaptureTimeExtensionWithCaptureClockOffset(t, time.Duration(c.O))
+		fd := fresh.EstimatedCaptureClockOffsetDuration()
+		if fd == nil || abs64(int64(*fd)-c.O) > 1 {
+			return ci, failf("after the caller changed the offset of an earlier extension through its pointer, a new extension built for offset %d ns reads %v", c.O, fd)
+		}
+		*eo.EstimatedCaptureClockOffset -= 5 << 32
+	}
 	if abs64(eo.CaptureTime().UnixNano()-c.T) > 1 {
 		return ci, failf("offset constructor: capture time %d vs %d", eo.CaptureTime().UnixNano(), c.T)
 	}
